@@ -931,7 +931,7 @@ fn c12_globals(o: &mut Out) {
 /// single and `$$$` captures alike) — the replacement text is the documented one, written out here
 /// literally (the reference of `c12-fix-substitutes` reads the implementation's own environment and
 /// cannot see a capture that was lost on the way to it).
-fn c12_fix_witnesses(o: &mut Out) {
+pub fn c12_fix_witnesses(o: &mut Out) {
   // (name, rule document, source, expected replacement of the first match)
   let cases: Vec<(&str, Value, &str, &str)> = vec![
     ("multi capture of the pattern", json!({"rule": {"pattern": "log($$$ARGS)"}, "fix": "log2($$$ARGS)"}), "log(a, b)", "log2(a, b)"),
@@ -943,6 +943,9 @@ fn c12_fix_witnesses(o: &mut Out) {
     ("multi capture of a local utility", json!({"utils": {"fmt": {"pattern": "format($$$ARGS)"}}, "rule": {"pattern": "log($CALL)", "has": {"matches": "fmt", "stopBy": "end"}}, "fix": "log2($$$ARGS)"}), "log(format(a, b))", "log2(a, b)"),
     ("transformation with a digit-first name, string fix", json!({"rule": {"pattern": "log($A, $B)"}, "transform": {"1ST": {"convert": {"source": "$A", "toCase": "upperCase"}}, "SECOND": {"replace": {"source": "$B", "replace": "x", "by": "y"}}}, "fix": "emit($1ST, $SECOND, $100)"}), "log(abc, xyz)", "emit(ABC, yyz, $100)"),
     ("transformation with a digit-first name, object fix", json!({"rule": {"pattern": "log($A, $B)"}, "transform": {"1ST": {"convert": {"source": "$A", "toCase": "upperCase"}}}, "fix": {"template": "emit($1ST, $100)"}}), "log(abc, xyz)", "emit(ABC, $100)"),
+    ("chain of three transformations, names not alphabetical along the dependency", json!({"rule": {"pattern": "function $NAME() {}"}, "transform": {"STRIPPED": {"replace": {"source": "$NAME", "replace": "^get_", "by": ""}}, "PROP": {"convert": {"source": "$STRIPPED", "toCase": "camelCase"}}, "KEY": {"substring": {"source": "$PROP", "startChar": 0, "endChar": 4}}}, "fix": "function $PROP() { return this.$KEY }"}), "function get_user_name() {}", "function userName() { return this.user }"),
+    ("chain of three transformations, names in reverse alphabetical order", json!({"rule": {"pattern": "function $NAME() {}"}, "transform": {"ZA": {"replace": {"source": "$NAME", "replace": "^get_", "by": ""}}, "MB": {"convert": {"source": "$ZA", "toCase": "camelCase"}}, "AC": {"substring": {"source": "$MB", "startChar": 0, "endChar": 4}}}, "fix": "$ZA|$MB|$AC"}), "function get_user_name() {}", "user_name|userName|user"),
+    ("chain of four transformations, the middle ones swapped alphabetically", json!({"rule": {"pattern": "function $NAME() {}"}, "transform": {"A": {"replace": {"source": "$NAME", "replace": "^get_", "by": ""}}, "D": {"convert": {"source": "$A", "toCase": "camelCase"}}, "C": {"substring": {"source": "$D", "startChar": 0, "endChar": 4}}, "B": {"convert": {"source": "$C", "toCase": "upperCase"}}}, "fix": "$A|$D|$C|$B"}), "function get_user_name() {}", "user_name|userName|user|USER"),
     ("constraint on a multi-capture-free rule, any of two patterns", json!({"rule": {"pattern": "log($CALL)"}, "constraints": {"CALL": {"any": [{"pattern": "fmt($$$ARGS)"}, {"pattern": "format($$$ARGS)"}]}}, "fix": "log2($$$ARGS)"}), "log(format(a, b))", "log2(a, b)"),
   ];
   let mut jobs = vec![];
